@@ -40,6 +40,7 @@ def _positions(case, x):
     for n, (t, it, a, dt, dg, dj) in enumerate(case['fl'], 1):
         if t == 'doc' and it == x:
             core = dt[5:] if dt.startswith('open+') else dt
+            core = core[:-1] if core.endswith('+close#') else core
             core = core[:-6] if core.endswith('+close') else core
             if core in ('src', 'want'):
                 pos.setdefault(dg, {}).setdefault(core, []).append(n)
